@@ -1,2 +1,3 @@
 import VrpModel.Num
 import VrpModel.Qubo
+import VrpModel.Graph
